@@ -50,14 +50,6 @@ func vdPack(y, m, d, h, mi, s, ms int) SuDate {
 	return SuDate{date: uint32(y*512 + m*32 + d), time: uint32(h*4194304 + mi*65536 + s*1024 + ms)}
 }
 
-// vdCentury: the centuries a harness case-splits over (quick: 1900s and 2000s).
-func vdCentury(name string) int {
-	if rt.Thorough() {
-		return rt.Pick(name, 30)
-	}
-	return 19 + rt.Pick(name, 2)
-}
-
 // vdEnable switches on the engine's exact folding of shifts/masks/division by constants
 // (engine/symgo/x_c33.go); natively a no-op.
 func vdEnable() {}
@@ -71,7 +63,7 @@ func VerifC33New() {
 	var y, m, d, h, mi, s, ms int
 	switch kind := rt.Pick("kind", 3); kind {
 	case 0: // every field inside its own range: the day-of-month rule decides
-		y = vdCentury("century")*100 + rt.IntRange("yy", 0, 99)
+		y = vdYear()
 		m = rt.Pick("month", 12) + 1
 		d = rt.IntRange("day", 1, 31)
 		h, mi, s, ms = rt.IntRange("hour", 0, 23), rt.IntRange("minute", 0, 59), rt.IntRange("second", 0, 59), rt.IntRange("ms", 0, 999)
@@ -130,11 +122,11 @@ func VerifC33New() {
 	}
 }
 
-// vdYear: a symbolic year 0..2999 written as 400*c4 + 100*cb + 4*q + b: with the year in this
+// vdYear: a symbolic year 400..2999 written as 400*c4 + 100*cb + 4*q + b: with the year in this
 // form every division of the calendar arithmetic has a quotient that is linear in c4 and q plus a
 // small case table, which is what the solver can decide.
 func vdYear() int {
-	c4 := rt.IntRange("c4", 0, 7)
+	c4 := rt.IntRange("c4", 1, 7)
 	cb := rt.IntRange("cb", 0, 3)
 	q := rt.IntRange("q", 0, 24)
 	b := rt.IntRange("b", 0, 3)
@@ -150,6 +142,12 @@ func vdSource() (y, m, d, h, mi, s, ms int) {
 	d = rt.IntRange("day", 1, 31)
 	h, mi, s, ms = rt.IntRange("hour", 0, 23), rt.IntRange("minute", 0, 59), rt.IntRange("second", 0, 59), rt.IntRange("ms", 0, 999)
 	rt.Assume(d <= vdMonthLen(y, m))
+	return
+}
+
+// vdPlus: d.Plus(...), ok=false if it panicked ("bad date": the result is outside years 0..3000).
+func vdPlus(d SuDate, yr, mon, day, hr, min, sec, ms int) (r SuDate, ok bool) {
+	ok = !rt.Try(func() { r = d.Plus(yr, mon, day, hr, min, sec, ms) })
 	return
 }
 
@@ -192,8 +190,14 @@ func VerifC33PlusDays() {
 	d2 := rt.IntRange("day2", 1, 31) // the day of month reached: every k landing in that month
 	rt.Assume(d2 <= vdMonthLen(y2, m2))
 	k := d2 - d + off
-	r := src.Plus(0, 0, k, 0, 0, 0, 0)
+	r, ok := vdPlus(src, 0, 0, k, 0, 0, 0, 0)
 	rt.Reach("computed")
+	rt.Observe("ok", ok)
+	rt.Assert("plusdays/rejects-exactly-out-of-range", ok == vdValid(y2, m2, d2, h, mi, s, ms))
+	if !ok {
+		return
+	}
+	rt.Reach("in-range")
 	rt.Observe("date", r.date)
 	rt.Observe("time", r.time)
 	want := vdPack(y2, m2, d2, h, mi, s, ms)
@@ -203,4 +207,280 @@ func VerifC33PlusDays() {
 	rt.Assert("plusdays/time-unchanged", r.time == src.time)
 	rt.Assert("plusdays/representation", r == want)
 	rt.Assert("minusdays/inverse-of-plus", rt.And(want.MinusDays(src) == k, src.MinusDays(want) == -k))
+}
+
+// vdShiftDay: the date `shift` days (|shift| <= 27, concrete) from y-m-d (m concrete): inside the
+// month, or carried into the previous / following month (branch-free).
+func vdShiftDay(y, m, d, shift int) (y2, m2, d2 int) {
+	yp, mp, offp := vdWalk(y, m, -1)
+	yn, mn, offn := vdWalk(y, m, 1)
+	dd := d + shift
+	under, over := dd < 1, dd > vdMonthLen(y, m)
+	y2 = rt.IteInt(under, yp, rt.IteInt(over, yn, y))
+	m2 = rt.IteInt(under, mp, rt.IteInt(over, mn, m))
+	d2 = rt.IteInt(under, dd-offp, rt.IteInt(over, dd-offn, dd))
+	return
+}
+
+// vdBoundaryDates: concrete dates around month, year, leap-day and range boundaries.
+var vdBoundaryDates = [][3]int{
+	{2023, 12, 31}, {2024, 1, 1}, {2024, 2, 28}, {2024, 2, 29}, {2024, 3, 1}, {2023, 2, 28},
+	{2100, 2, 28}, {2000, 2, 29}, {1999, 12, 31}, {2999, 12, 31}, {1970, 1, 1}, {2024, 6, 30},
+	// thorough only:
+	{1700, 1, 1}, {1900, 2, 28}, {1900, 3, 1}, {2000, 1, 1}, {2000, 12, 31}, {2038, 1, 19}, {2226, 12, 31},
+	{2227, 1, 1}, {2400, 2, 29}, {400, 1, 1}, {1, 1, 1}, {2024, 4, 30}, {2024, 7, 31}, {2024, 8, 1}, {2999, 12, 30},
+}
+
+// C33: adding hours, minutes, seconds or milliseconds (one field at a time) to a concrete boundary
+// date with a symbolic time of day. With the time of day counted in ms, the sum lands `shift` whole
+// days away at ms-of-day tod2; the date part is the date `shift` days later, and MinusMs inverts it.
+// (With a symbolic date as well the solver does not decide the combined time and calendar
+// normalisation; symbolic dates are covered by VerifC33PlusDays.)
+//
+//symgo:harness prop=C33 tier=quick arith=int timeout=300 ttimeout=1500 qtimeout=20000 shards=4 tshards=8 bounds=probe
+func VerifC33PlusTime() {
+	vdEnable()
+	nd := 12
+	span := 1
+	if rt.Thorough() {
+		nd, span = len(vdBoundaryDates), 3
+	}
+	ymd := vdBoundaryDates[rt.Pick("date", nd)]
+	y, m, d := ymd[0], ymd[1], ymd[2]
+	h, mi, s, ms := rt.IntRange("hour", 0, 23), rt.IntRange("minute", 0, 59), rt.IntRange("second", 0, 59), rt.IntRange("ms", 0, 999)
+	src := vdPack(y, m, d, h, mi, s, ms)
+	unit := []int{3600000, 60000, 1000, 1}[rt.Pick("unit", 4)]
+	shift := rt.IntRange("days_away", -span, span)
+	y2, m2, d2 := vdShiftDay(y, m, d, shift)
+	lim := (span + 1) * vdMsPerDay / unit
+	k := rt.IntRange("offset", -lim, lim)
+	tod2 := vdTod(h, mi, s, ms) + k*unit - shift*vdMsPerDay
+	rt.Assume(rt.And(0 <= tod2, tod2 < vdMsPerDay))
+	var r SuDate
+	var ok bool
+	switch unit {
+	case 3600000:
+		r, ok = vdPlus(src, 0, 0, 0, k, 0, 0, 0)
+	case 60000:
+		r, ok = vdPlus(src, 0, 0, 0, 0, k, 0, 0)
+	case 1000:
+		r, ok = vdPlus(src, 0, 0, 0, 0, 0, k, 0)
+	default:
+		r, ok = vdPlus(src, 0, 0, 0, 0, 0, 0, k)
+	}
+	rt.Reach("computed")
+	rt.Observe("ok", ok)
+	inRange := rt.Or(y2 < 3000, rt.And(rt.And(y2 == 3000, m2 == 1), rt.And(d2 == 1, tod2 == 0)))
+	rt.Assert("plustime/rejects-exactly-out-of-range", ok == inRange)
+	if !ok {
+		return
+	}
+	rt.Reach("in-range")
+	rt.Observe("date", r.date)
+	rt.Observe("time", r.time)
+	rt.Assert("plustime/date", rt.And(rt.And(r.Year() == y2, r.Month() == m2), r.Day() == d2))
+	rh, rmi, rs, rms := r.Hour(), r.Minute(), r.Second(), r.Millisecond()
+	rt.Assert("plustime/time-fields-in-range", rt.And(rt.And(rh <= 23, rmi <= 59), rt.And(rs <= 59, rms <= 999)))
+	rt.Assert("plustime/time-of-day", vdTod(rh, rmi, rs, rms) == tod2)
+	rt.Assert("minusms/inverse-of-plus", rt.And(r.MinusMs(src) == int64(k*unit), src.MinusMs(r) == -int64(k*unit)))
+}
+
+// C33: adding years or months. The target year is an independent decomposed year y2 (so the offset
+// is y2-y years, or 12*(y2-y)+(m2-m) months with m2 concrete); Gregorian normalisation: day d of
+// month (y2,m2) if that month has it, otherwise the overflow runs into the following month.
+//
+//symgo:harness prop=C33 tier=quick arith=int timeout=300 ttimeout=1500 qtimeout=20000 shards=4 tshards=8 bounds=probe
+func VerifC33PlusYearsMonths() {
+	vdEnable()
+	y, m, d, h, mi, s, ms := vdSource()
+	src := vdPack(y, m, d, h, mi, s, ms)
+	c4 := rt.IntRange("t_c4", 1, 7)
+	cb := rt.IntRange("t_cb", 0, 3)
+	q := rt.IntRange("t_q", 0, 24)
+	b := rt.IntRange("t_b", 0, 3)
+	y2 := 400*c4 + 100*cb + 4*q + b
+	m2 := m
+	var r SuDate
+	var ok bool
+	if rt.Pick("field", 2) == 0 {
+		r, ok = vdPlus(src, y2-y, 0, 0, 0, 0, 0, 0)
+	} else {
+		if rt.Thorough() {
+			m2 = rt.Pick("t_month", 12) + 1
+		} else {
+			m2 = (m+[]int{0, 1, 10}[rt.Pick("t_month", 3)])%12 + 1 // next, second next, previous month
+		}
+		r, ok = vdPlus(src, 0, 12*(y2-y)+(m2-m), 0, 0, 0, 0, 0)
+	}
+	rt.Reach("computed")
+	rt.Observe("ok", ok)
+	// normalise day d of (y2, m2)
+	y3, m3, d3 := y2, m2, d
+	over := d > vdMonthLen(y2, m2)
+	if over { // forks: at most 3 days of overflow (Feb 31 -> Mar 3), into the next month
+		y3, m3, _ = vdWalk(y2, m2, 1)
+		d3 = d - vdMonthLen(y2, m2)
+	}
+	rt.Observe("overflow", over)
+	rt.Assert("plusym/rejects-exactly-out-of-range", ok == vdValid(y3, m3, d3, h, mi, s, ms))
+	if !ok {
+		return
+	}
+	rt.Reach("in-range")
+	rt.Observe("date", r.date)
+	rt.Assert("plusym/year", r.Year() == y3)
+	rt.Assert("plusym/month", r.Month() == m3)
+	rt.Assert("plusym/day", r.Day() == d3)
+	rt.Assert("plusym/time-unchanged", r.time == src.time)
+}
+
+// C33: the julian day number is the reference day number plus a constant, so MinusDays is the
+// difference of reference day numbers for any two dates (years 400..2999, concrete months).
+//
+//symgo:harness prop=C33 tier=quick arith=int timeout=300 ttimeout=900 qtimeout=20000 shards=2 tshards=4 bounds=probe
+func VerifC33MinusDays() {
+	vdEnable()
+	y, m, d, h, mi, s, ms := vdSource()
+	a := vdPack(y, m, d, h, mi, s, ms)
+	rt.Reach("computed")
+	rt.Assert("jday/reference", int(a.jday()) == vdDays(y, m, d)+1721060) // JDN of 0000-01-01 (Gregorian) is 1721060
+	rt.Observe("jday", a.jday())
+	if !rt.Thorough() && m > 3 && m < 12 {
+		return
+	}
+	c4 := rt.IntRange("t_c4", 1, 7)
+	cb := rt.IntRange("t_cb", 0, 3)
+	q := rt.IntRange("t_q", 0, 24)
+	bb := rt.IntRange("t_b", 0, 3)
+	y2 := 400*c4 + 100*cb + 4*q + bb
+	m2 := []int{1, 2, 3, 12}[rt.Pick("t_month", 4)]
+	if rt.Thorough() {
+		m2 = rt.Pick("t_month12", 12) + 1
+	}
+	d2 := rt.IntRange("t_day", 1, 31)
+	rt.Assume(rt.And(y2 <= 2999, d2 <= vdMonthLen(y2, m2)))
+	b := vdPack(y2, m2, d2, rt.IntRange("t_hour", 0, 23), 0, 0, rt.IntRange("t_ms", 0, 999))
+	rt.Reach("two-dates")
+	n := b.MinusDays(a)
+	rt.Observe("minusdays", n)
+	rt.Assert("minusdays/reference-difference", n == vdDays(y2, m2, d2)-vdDays(y, m, d))
+}
+
+// vdAny: a symbolic valid date with a symbolic month (no calendar conversion involved).
+func vdAny(p string) (y, m, d, h, mi, s, ms int) {
+	y = rt.IntRange(p+"year", 0, 3000)
+	m = rt.IntRange(p+"month", 1, 12)
+	d = rt.IntRange(p+"day", 1, 31)
+	h, mi, s, ms = rt.IntRange(p+"hour", 0, 23), rt.IntRange(p+"minute", 0, 59), rt.IntRange(p+"second", 0, 59), rt.IntRange(p+"ms", 0, 999)
+	rt.Assume(vdValid(y, m, d, h, mi, s, ms))
+	return
+}
+
+func vdSign(n int) int { return rt.IteInt(n < 0, -1, rt.IteInt(n > 0, 1, 0)) }
+
+// vdChrono: -1/0/+1 as the first instant is before/at/after the second (field by field, most
+// significant first; for valid dates that is chronological order), extra byte last.
+func vdChrono(a, b [8]int) int {
+	r := 0
+	for i := 7; i >= 0; i-- {
+		r = rt.IteInt(a[i] < b[i], -1, rt.IteInt(a[i] > b[i], 1, r))
+	}
+	return r
+}
+
+// C33: Compare orders dates (and timestamps: date, then the extra byte; a plain date counts as
+// extra 0) chronologically; any two valid dates of years 0..3000.
+//
+//symgo:harness prop=C33 tier=quick arith=int timeout=200 qtimeout=20000 shards=1 bounds=probe
+func VerifC33Compare() {
+	vdEnable()
+	y1, m1, d1, h1, mi1, s1, ms1 := vdAny("a_")
+	y2, m2, d2, h2, mi2, s2, ms2 := vdAny("b_")
+	a := vdPack(y1, m1, d1, h1, mi1, s1, ms1)
+	b := vdPack(y2, m2, d2, h2, mi2, s2, ms2)
+	e1, e2 := 0, 0
+	var va, vb Value = a, b
+	shape := rt.Pick("shape", 4) // date/date, ts/date, date/ts, ts/ts
+	if shape == 1 || shape == 3 {
+		e1 = rt.IntRange("a_extra", 1, 255)
+		va = SuTimestamp{SuDate: a, extra: uint8(e1)}
+	}
+	if shape >= 2 {
+		e2 = rt.IntRange("b_extra", 1, 255)
+		vb = SuTimestamp{SuDate: b, extra: uint8(e2)}
+	}
+	c := va.Compare(vb)
+	rt.Reach("computed")
+	rt.Observe("cmp", c)
+	want := vdChrono([8]int{y1, m1, d1, h1, mi1, s1, ms1, e1}, [8]int{y2, m2, d2, h2, mi2, s2, ms2, e2})
+	rt.Assert("compare/chronological", vdSign(c) == want)
+	rt.Assert("compare/antisymmetric", vdSign(vb.Compare(va)) == -want)
+	rt.Assert("compare/equal-iff-same", (c == 0) == va.Equal(vb))
+	if shape == 0 {
+		// chronological also means: the later date has the larger (day number, ms of day)
+		dd := b.MinusDays(a)
+		rt.Assert("compare/agrees-with-minusdays", rt.Implies(dd > 0, c < 0) && rt.Implies(dd < 0, c > 0))
+	}
+}
+
+// C33: a date's literal text parses back to the same date (all four text forms: date only,
+// hhmm, hhmmss, hhmmssmmm) and a timestamp's text to the same timestamp.
+//
+//symgo:harness prop=C33 tier=quick arith=int timeout=300 qtimeout=20000 shards=2 tshards=4 bounds=probe
+func VerifC33Literal() {
+	vdEnable()
+	y, m, d, h, mi, s, ms := vdAny("")
+	switch rt.Pick("form", 5) {
+	case 0:
+		h, mi, s, ms = 0, 0, 0, 0
+	case 1:
+		s, ms = 0, 0
+	case 2:
+		ms = 0
+	}
+	x := vdPack(y, m, d, h, mi, s, ms)
+	if rt.Pick("timestamp", 2) == 1 {
+		ts := SuTimestamp{SuDate: x, extra: uint8(rt.IntRange("extra", 1, 255))}
+		str := ts.String()
+		rt.Reach("timestamp-text")
+		rt.Observe("text", str)
+		back := DateFromLiteral(str)
+		rt.Assert("literal/timestamp-roundtrip", back == PackableValue(ts))
+		return
+	}
+	str := x.String()
+	rt.Reach("date-text")
+	rt.Observe("text", str)
+	back := DateFromLiteral(str)
+	rt.Assert("literal/roundtrip", back == PackableValue(x))
+	rt.Assert("literal/roundtrip-without-hash", DateFromLiteral(str[1:]) == PackableValue(x))
+}
+
+// C33: AddMs(k), 0 < k < 100, is the date k milliseconds later: on the fast path (no carry out
+// of the millisecond field) and on the fallback path (carry).
+//
+//symgo:harness prop=C33 tier=quick arith=int timeout=300 qtimeout=20000 shards=2 tshards=4 bounds=probe
+func VerifC33AddMs() {
+	vdEnable()
+	y, m, d, h, mi, s, ms := vdSource()
+	rt.Assume(y < 2999) // the result stays in range
+	src := vdPack(y, m, d, h, mi, s, ms)
+	k := rt.IntRange("k", 1, 99)
+	r := src.AddMs(k)
+	rt.Reach("computed")
+	rt.Observe("date", r.date)
+	rt.Observe("time", r.time)
+	if ms+k < 1000 {
+		rt.Reach("fast-path")
+		rt.Assert("addms/no-carry", r == vdPack(y, m, d, h, mi, s, ms+k))
+		return
+	}
+	rt.Reach("carry-path")
+	want, _ := vdPlus(src, 0, 0, 0, 0, 0, 0, k)
+	// AddMs(1) is what the timestamp code relies on; k > 1 with a carry has its own label
+	if k == 1 {
+		rt.Assert("addms/carry-by-one", r == want)
+	} else {
+		rt.Assert("addms/carry-adds-all-k-ms", r == want)
+	}
 }
